@@ -3,6 +3,7 @@ package main
 import (
 	"fmt"
 	"go/types"
+	"sort"
 	"strings"
 
 	"golang.org/x/tools/go/ssa"
@@ -319,13 +320,15 @@ func (x *Exec) resolveLoc(ce *CEnv, e *CExpr) []hloc {
 	switch {
 	case e.Op == "ident" && e.Name == "log":
 		out = append(out, hloc{"log#n", SInt, 0, []*Term{}})
-		for _, s := range []string{"log#fn", "log#recv"} {
-			out = append(out, hloc{s, SInt, 1, nil})
+		var names []string
+		for n := range famReg {
+			if strings.HasPrefix(n, "log#") && n != "log#n" {
+				names = append(names, n)
+			}
 		}
-		for k := 0; k < 8; k++ {
-			out = append(out, hloc{fmt.Sprintf("log#a%d", k), SInt, 1, nil})
-			out = append(out, hloc{fmt.Sprintf("log#b%d", k), SBool, 1, nil})
-			out = append(out, hloc{fmt.Sprintf("log#r%d", k), SInt, 1, nil})
+		sort.Strings(names)
+		for _, n := range names {
+			out = append(out, hloc{n, famReg[n].sort, famReg[n].arity, nil})
 		}
 		return out
 	case e.Op == "call" && e.Args[0].Op == "ident" && e.Args[0].Name == "forall":
@@ -380,6 +383,19 @@ func (x *Exec) resolveLoc(ce *CEnv, e *CExpr) []hloc {
 	}
 	p := ce.lvaluePlace(e)
 	t := ce.typeOfLvalue(e)
+	if n, ok := t.(*types.Named); ok && n.Obj().Pkg() != nil && n.Obj().Pkg().Path() == "sync" && n.Obj().Name() == "Map" {
+		for _, sfx := range []struct {
+			s string
+			t Sort
+		}{{"#smdom", SBool}, {"#smtag", SInt}, {"#smref", SInt}} {
+			if len(p.Idx) == 1 {
+				out = append(out, hloc{p.Prefix + sfx.s, sfx.t, 2, p.Idx})
+			} else {
+				out = append(out, hloc{p.Prefix + sfx.s, sfx.t, len(p.Idx) + 1, nil})
+			}
+		}
+		return out
+	}
 	addPlace(p, t)
 	return out
 }
@@ -402,7 +418,7 @@ func flatten(v Val, out *[]*Term) {
 		if v.T != nil {
 			*out = append(*out, v.T)
 		} else {
-			*out = append(*out, strCode("closure:"+v.Fn.String()))
+			*out = append(*out, strCode("func:"+v.Fn.String()))
 		}
 	case VSlice:
 		*out = append(*out, v.Arr, v.Off, v.Len)
@@ -419,7 +435,7 @@ func (x *Exec) externalCall(st *State, name string, recv Val, args []Val, res *t
 	h := st.heap
 	nfam := h.Get("log#n", 0, SInt)
 	n := nfam.Select(nil)
-	h.Set("log#fn", h.Get("log#fn", 1, SInt).Store([]*Term{n}, strCode("fn:"+name)))
+	h.Set("log#fn", h.Get("log#fn", 1, SInt).Store([]*Term{n}, strCode(name)))
 	var rt []*Term
 	flatten(recv, &rt)
 	if len(rt) > 0 {
@@ -459,6 +475,25 @@ func (x *Exec) externalCall(st *State, name string, recv Val, args []Val, res *t
 				ri++
 			}
 		}
+	}
+	// assumed contract on the interface method (results only)
+	if ic := x.P.ifaceContracts[name]; ic != nil {
+		ce := &CEnv{x: x, vars: map[string]Val{}, heap: st.heap, old: st.heap, alloc: st.alloc, allocOld: st.alloc}
+		if x.fn != nil && x.fn.Pkg != nil {
+			ce.pkg = x.fn.Pkg.Pkg
+		}
+		for i, r := range results {
+			if i < len(ic.Returns) {
+				ce.vars[ic.Returns[i]] = r
+			}
+		}
+		for i, a := range args {
+			ce.vars[fmt.Sprintf("arg%d", i)] = a
+		}
+		for _, e := range ic.Ensures {
+			x.assume(st, x.evalClause(ce, e, name))
+		}
+		x.trust("assumed contract on interface method " + name + ": " + ic.Trusted)
 	}
 	return tupleOf(results)
 }
